@@ -103,6 +103,9 @@ def gen_case(rng, depth=3, hist=False, ids=None, max_ops=40, **genkw):
         "hist": hist,
         "max_ops": max_ops,
     }
+    if hist and rng.random() < 0.3:
+        # the application names its order itself (blanks, separators: an id is any string)
+        case["sched_uuid"] = rng.choice(["order-17", "plant A/order 17", "line:3 #7", "a b", "Auftrag/2024/07"])
     return case
 
 
@@ -388,6 +391,8 @@ def canon_impl_event(e):
             return ["LOG", e[1], "unparsed", e[3], e[4]]
         if e[2] == "NET":
             return ["NET", e[1]]
+        if e[2] == "NETID":
+            return ["UPD", e[1], "NETID", e[3]]
         return ["UPD", e[1], e[2]]
     if e[0] == "VAR":
         return ["VAR", e[1], e[2]]
